@@ -296,7 +296,7 @@ class XlsObject:
         assert isinstance(origins, dict)
         if range_key is None:
             # return description of all the source cells
-            cells_coords = sorted(origins.values())
+            cells_coords = list(origins.values())  # in order of columns
             if len(cells_coords) == 0:
                 cells_range_descr = "<skipped column>"
             elif len(cells_coords) == 1:
